@@ -89,7 +89,13 @@ class Resolver:
                     else:
                         e = ("field", e, "as " + str(p.get("name")))
                 return e
-        return ("place", frozenset(self.pts.resolve_place(pl)))
+        paths = frozenset(self.pts.resolve_place(pl))
+        if len(paths) == 1 and depth < 30:
+            (root, pr) = next(iter(paths))
+            # a read through a reference to a whole local that is never mutably borrowed: the local's value
+            if root[0] == "loc" and not pr and root[1] != l and root[1] not in self.mut_borrowed and any(e["k"] == "deref" for e in proj):
+                return self.local(root[1], depth + 1)
+        return ("place", paths)
 
     def local(self, l, depth=0):
         if depth > 40:
